@@ -1,6 +1,7 @@
 /-
 C18 — Config expansion: inheritance, counts/ranges, names, random values, aliases.
 -/
+import PamsLemmas.SourceTie
 import PamsModel.Config
 import PamsProps.C15
 import Mathlib.Analysis.SpecialFunctions.Log.Basic
@@ -329,5 +330,15 @@ theorem nonvacuous :
     jsonExtends demoWhole 99 [(0, 55)] [] = .error .missing ∧
     (expand 7 (.range 3 4)).map (fun e => (e.id, e.suffix)) = [(7, some 3), (8, some 4)] := by
   decide
+
+/-- (T) `Session.setup` in the current sources: which attribute each settings key is assigned to; the
+deprecated spellings are assigned to the same attribute as their replacement -/
+theorem source_session_keys :
+    Pams.Source.attrOf "maxHifreqOrders" = Pams.Source.attrOf "maxHighFrequencyOrders" ∧
+    Pams.Source.attrOf "hifreqSubmitRate" = Pams.Source.attrOf "highFrequencySubmitRate" ∧
+    Pams.Source.attrOf "maxHighFrequencyOrders" = some "max_high_frequency_orders" ∧
+    Pams.Source.attrOf "highFrequencySubmitRate" = some "high_frequency_submission_rate" ∧
+    Pams.Source.attrOf "maxNormalOrders" = some "max_normal_orders" ∧
+    Pams.Source.opsOf "json_extends" = ["is not", "in", "not in", "in", "not in"] := by decide
 
 end Pams.C18
